@@ -1007,6 +1007,17 @@ class Host(utils.EventEmitter):
         if self.pending_response and not self.pending_response.done():
             self.pending_response.set_exception(TransportLostError('transport lost'))
 
+        # The links are gone with the transport: report them as disconnected so that
+        # every layer drops its per-connection state and releases its waiters.
+        for handle in [*self.connections, *self.cis_links, *self.sco_links]:
+            self.on_hci_disconnection_complete_event(
+                hci.HCI_Disconnection_Complete_Event(
+                    status=hci.HCI_SUCCESS,
+                    connection_handle=handle,
+                    reason=hci.HCI_HARDWARE_FAILURE_ERROR,
+                )
+            )
+
         self.emit('flush')
 
     def on_hci_packet(self, packet: hci.HCI_Packet) -> None:
